@@ -71,7 +71,7 @@ Sorted(seq) == \A i, j \in DOMAIN seq : i < j =>
 \* every accepted start eventually becomes active, every accepted stop eventually completes
 Progress == \A m \in Modes : [](phase[m] \notin {"stopped", "active"} => <>(phase[m] \in {"stopped", "active"}))
 \* the five modes of /verif/machines/modes
-FullPrio == [m \in {"A", "B", "C", "D", "E"} |-> IF m = "B" THEN 200 ELSE IF m = "E" THEN 50 ELSE 100]
+FullPrio == [m \in {"A", "B", "C", "D", "E", "G"} |-> IF m = "B" THEN 200 ELSE IF m = "E" THEN 50 ELSE IF m = "G" THEN 150 ELSE 100]
 FullAuto == {<<"A", "stopped", "D", "start">>, <<"E", "stopped", "E", "start">>}
 TypeOK == \A m \in Modes : phase[m] \in {"stopped", "s1", "s2", "s3", "s3t", "s3u", "active", "t1", "t2", "t3", "t3s"}
 =============================================================================
